@@ -60,7 +60,7 @@ def check_restart(case, workdir):
         r.label("non-dyadic-cell-size")
     if len(stops) > 1:
         r.label("restart-chain")
-    for comp in ("use_mask", "gravity", "turbulence"):
+    for comp in ("use_mask", "gravity", "turbulence", "live_output"):
         if case.get(comp):
             r.label("component-" + comp)
     if any(case["periodic"]):
@@ -100,13 +100,15 @@ def check_restart(case, workdir):
     seed_off = end_of_maps(da, TIMER_BYTES) + 16
     diffs = [i for i in range(TIMER_BYTES, len(da)) if da[i] != db[i]]
     if case.get("use_mask"):
-        bad = [i for i in diffs if not (seed_off <= i and i // 8 == diffs[0] // 8)]
+        # the mask sits between the maps and the seed: its size is not known
+        # here, so accept one field of at most 8 bytes after the maps
+        bad = [i for i in diffs if not (seed_off <= diffs[0] and i - diffs[0] < 8)]
     else:
         bad = [i for i in diffs if not (seed_off <= i < seed_off + 8)]
     if bad:
         return r.fail("final restart.dump differs from the uninterrupted run at byte %d of %d (%d differing bytes outside the timers and the re-seeded random seed at %d)" % (
             bad[0], len(da), len(bad), seed_off))
-    r.nontrivial = changed and (non_dyadic or len(stops) > 1 or any(case.get(c) for c in ("use_mask", "gravity", "turbulence")))
+    r.nontrivial = changed and (non_dyadic or len(stops) > 1 or any(case.get(c) for c in ("use_mask", "gravity", "turbulence", "live_output")))
     return r
 
 
@@ -142,7 +144,31 @@ def cases(draw):
     nstop = draw(st.sampled_from([1, 1, 1, 2, 3]))
     stops = sorted(set(draw(st.integers(1, N - 1)) for _ in range(nstop)))
     dt = 0.02 * min(sides[i] / ncell[i] for i in range(3)) / (3. * cs)
-    return {
+    extra = {}
+    comp = {}
+    if draw(st.booleans()) and draw(st.booleans()):
+        comp["use_mask"] = True
+        extra["HydroMask"] = {"type": "RescaledIC",
+                              "center": cmirun.fmt_vec([anchor[i] + 0.5 * sides[i] for i in range(3)], "m"),
+                              "radius": "%r m" % (0.3 * min(sides)), "delta t": "%r s" % (dt * 2)}
+    if draw(st.booleans()) and draw(st.booleans()):
+        comp["gravity"] = True
+        extra["ExternalPotential"] = {"type": "PointMass",
+                                      "position": cmirun.fmt_vec([anchor[i] + 0.51 * sides[i] for i in range(3)], "m"),
+                                      "mass": "%r kg" % (1e-3 * cs * cs * min(sides) / 6.674e-11)}
+    if sides[0] == sides[1] == sides[2] and draw(st.booleans()):
+        comp["turbulence"] = True
+        extra["TurbulenceForcing"] = {"forcing power": "%r m^2 s^-3" % (1e-2 * cs ** 3 / sides[0]),
+                                      "time step": "%r s" % (dt * 0.7), "random seed": draw(st.integers(1, 1000))}
+    if draw(st.booleans()) and draw(st.booleans()):
+        comp["live_output"] = True
+        extra["LiveOutputManager"] = {"enabled": True, "output surface density": True,
+                                      "output density PDF": True, "output velocity PDF": True,
+                                      "minimum density": "1.e-22 kg m^-3", "maximum density": "1.e-12 kg m^-3",
+                                      "maximum velocity": "1.e5 m s^-1", "output interval": "%r s" % (dt * 2)}
+    base = dict(comp)
+    base["extra"] = extra
+    base.update({
         "ncell": ncell, "nsub": nsub, "periodic": periodic, "anchor": anchor, "sides": sides,
         "boundary": [draw(st.sampled_from(["reflective", "reflective", "inflow", "outflow"])) for _ in range(3)],
         "blocks": blocks, "gamma": draw(st.sampled_from([5. / 3., 1.4, 1.0001, 2.0])),
@@ -151,13 +177,14 @@ def cases(draw):
         "backups": draw(st.sampled_from([0, 1, 2])),
         "pools": {"buffers": 200, "queue": 2000, "shared_queue": 2000,
                   "tasks": 18 * nsub[0] * nsub[1] * nsub[2] + 500},
-    }
+    })
+    return base
 
 
 SUBS = [
     pbt.Sub("continue_after_restart", cases(), check_restart, quick=400, thorough=8000,
             shrink_budget=8,
-            rule="box with dyadic (25%) or arbitrary decimal sides/anchors, 3..12 cells per axis, layouts dividing them, periodic/reflective/inflow/outflow boundaries, 2-4 density/temperature/velocity blocks, gamma in {5/3,1.4,1.0001,2}, N=3..8 steps, 1-3 stop points; one thread; non-trivial: the state changes during the run and (cell size not dyadic, or a chain of restarts)",
+            rule="box with dyadic (25%) or arbitrary decimal sides/anchors, optional components (hydro mask, external point mass, turbulence forcing on cubic boxes, live output), 3..12 cells per axis, layouts dividing them, periodic/reflective/inflow/outflow boundaries, 2-4 density/temperature/velocity blocks, gamma in {5/3,1.4,1.0001,2}, N=3..8 steps, 1-3 stop points; one thread; non-trivial: the state changes during the run and (cell size not dyadic, or a chain of restarts)",
             floors={"non-dyadic-cell-size": 0.4}),
 ]
 
